@@ -704,6 +704,14 @@ impl JxlImage {
     }
 }
 
+/// Verification hook (H3): read-only access to the render context.
+#[cfg(jxl_oxide_verif)]
+impl JxlImage {
+    pub fn verif_render_context(&self) -> &RenderContext {
+        &self.ctx
+    }
+}
+
 /// # Rendering to image buffers
 impl JxlImage {
     /// Renders the given keyframe.
